@@ -95,6 +95,61 @@ func metaEdits() []func(g *vkit.Rand) edit {
 				a.SetAnnotations(l)
 			}}
 		},
+		// one annotation REPLACED by another, the count stays: marker annotations (empty value) old and/or new, a key-only
+		// change (value kept), a valued annotation replaced by a marker
+		func(g *vkit.Rand) edit {
+			newKey, mode := g.Pick([]string{"paused", "drain", "example.com/marker", "note2"}), g.Intn(3)
+			return edit{"annotations(key replaced, same count)", "annotations", func(o runtime.Object) {
+				a := acc(o)
+				l := copyMap(a.GetAnnotations())
+				if len(l) == 0 {
+					return
+				}
+				var ks []string
+				for k := range l {
+					ks = append(ks, k)
+				}
+				sort.Strings(ks)
+				oldKey := ks[0]
+				if _, exists := l[newKey]; exists || newKey == oldKey {
+					return
+				}
+				v := l[oldKey]
+				delete(l, oldKey)
+				switch mode {
+				case 0:
+					l[newKey] = "" // marker
+				case 1:
+					l[newKey] = v // key-only change
+				case 2:
+					l[newKey] = "x"
+				}
+				a.SetAnnotations(l)
+			}}
+		},
+		// value "" <-> key missing, and "" <-> some value
+		func(g *vkit.Rand) edit {
+			k, mode := g.Pick(annKeys), g.Intn(2)
+			return edit{"annotations(empty value)", "annotations", func(o runtime.Object) {
+				a := acc(o)
+				l := copyMap(a.GetAnnotations())
+				v, has := l[k]
+				switch {
+				case !has:
+					if l == nil {
+						l = map[string]string{}
+					}
+					l[k] = ""
+				case v == "" && mode == 0:
+					delete(l, k)
+				case v == "":
+					l[k] = "x"
+				default:
+					l[k] = ""
+				}
+				a.SetAnnotations(l)
+			}}
+		},
 		// nil <-> empty map: the same stored form (omitempty); judged as "either verdict acceptable" (see ambiguous)
 		func(g *vkit.Rand) edit {
 			return edit{"annotations(nil<->empty)", "annotations", func(o runtime.Object) {
@@ -181,8 +236,21 @@ func storedMeta(g *vkit.Rand, name string) metav1.ObjectMeta {
 			m.Annotations[g.Pick(annKeys)] = g.Pick(vals)
 		}
 	}
+	if g.Chance(0.25) && m.Annotations != nil {
+		m.Annotations[g.Pick([]string{"paused", "drain"})] = "" // marker annotation
+	}
 	if g.Chance(0.2) {
 		m.Finalizers = []string{"example.com/f"}
+	}
+	if g.Chance(0.25) {
+		// terminating: deleted, kept by a finalizer. rest.BeforeUpdate keeps deletionTimestamp / grace period of the stored
+		// object and refuses new finalizers; the conventions of the statement do not depend on this state
+		dt := metav1.NewTime(time.Unix(1600000500, 0))
+		grace := int64(30)
+		m.DeletionTimestamp, m.DeletionGracePeriodSeconds = &dt, &grace
+		if len(m.Finalizers) == 0 {
+			m.Finalizers = []string{"proxy.kubegateway.io/cleanup"}
+		}
 	}
 	return m
 }
@@ -606,7 +674,7 @@ func names(edits []edit) []string {
 func TestCheck(t *testing.T) {
 	vkit.Run(t, "C20", "exploration", func(r *vkit.R) {
 		r.Rule("pairs (stored object, submitted object = stored + a random subset of 0..4 named edits out of: labels, annotations (incl. nil<->empty), finalizers, ownerReferences, client-sent generation, " +
-			"clusterName/namespace/managedFields, whole spec, spec sub-fields (servers, clientConfig, flowControl, dispatchPolicies, nil<->empty list), status sub-fields) are pushed through the real k8s.io/apiserver " +
+			"clusterName/namespace/managedFields, annotation key replaced at equal count (marker/valued), annotation value ''<->missing<->value, whole spec, spec sub-fields (servers, clientConfig, flowControl, dispatchPolicies, nil<->empty list), status sub-fields) are pushed through the real k8s.io/apiserver " +
 			"rest.BeforeCreate / rest.BeforeUpdate with the strategies of the genericregistry.Store objects that registry.NewResourceREST builds from the registered RESTStorageOptions (main store and status store); " +
 			"every kind served with a status subresource is judged with its own objects; because UpstreamClusterStatus has no fields, the same registered (kind-generic, reflection based) strategies are also " +
 			"exercised with RateLimitCondition objects (rich spec and status) as a probe kind. The no-difference pair and every single-edit pair are always included (systematic part), then random subsets. " +
@@ -681,6 +749,9 @@ func TestCheck(t *testing.T) {
 					r.Eval(1)
 					r.Distinct(vkit.Hash64(label, string(op), js2(stored), strings.Join(names(edits), ","), fmt.Sprint(i)))
 					r.Count("cases_"+string(op), 1)
+					if acc(stored).GetDeletionTimestamp() != nil {
+						r.Count("cases_stored_terminating", 1)
+					}
 					if o.Refused {
 						r.Count("refused_"+string(op), 1)
 						continue
@@ -707,6 +778,14 @@ func TestCheck(t *testing.T) {
 					min := shrink(tg.k, &tg.kg, op, stored, edits, o.Class)
 					mo := run(tg.k, &tg.kg, op, stored, min)
 					sig := fmt.Sprintf("C20/%s/%s/differs=%s", op, o.Class, diffParts(stored, min))
+					if acc(stored).GetDeletionTimestamp() != nil && op != opCreate {
+						live := stored.DeepCopyObject()
+						acc(live).SetDeletionTimestamp(nil)
+						acc(live).SetDeletionGracePeriodSeconds(nil)
+						if lo := run(tg.k, &tg.kg, op, live, min); lo.Class != o.Class {
+							sig += "/stored=terminating" // the same pair on a live object conforms
+						}
+					}
 					if op == opCreate { // there is no stored object on create; the submitted one is the whole input
 						sig = fmt.Sprintf("C20/%s/%s", op, o.Class)
 					}
